@@ -171,7 +171,7 @@ def parts(c, env=None):
     def side(e):
         i, k = [], []
         idc(e, env, i, k)
-        return ([str(x) for x in i if x], sorted(str(x) for x in k), re.sub(r"[A-Za-z_][A-Za-z_0-9]*", "", txt(e)))
+        return (sorted(str(x) for x in i if x), sorted(str(x) for x in k))
     l, r = txt(c["l"]), txt(c["r"])
     op = c["op"]
     sl, sr = side(c["l"]), side(c["r"])
@@ -182,7 +182,7 @@ def parts(c, env=None):
         def side2(e):
             i, k = [], []
             idc(e, shallow, i, k)
-            return ([str(x) for x in i if x], sorted(str(x) for x in k))
+            return (sorted(str(x) for x in i if x), sorted(str(x) for x in k), re.sub(r"[A-Za-z_][A-Za-z_0-9]*", "", txt(e)))
         sl, sr = side2(c["l"]), side2(c["r"])
     if sl > sr:
         l, r, op = r, l, FLIP[op]
